@@ -25,8 +25,7 @@ def _used_vars(expr: Optional[ast.expr]) -> Set[str]:
         # The callee-expression is not visited
         children = expr.args
         for keyword in expr.keywords:
-            if isinstance(keyword.value, ast.Name):
-                result.add(keyword.value.id)
+            result = result | _used_vars(keyword.value)
     else:
         children = ast.iter_child_nodes(expr)  # type: ignore[assignment]
     for c in children:
